@@ -488,7 +488,15 @@ fn explore_aggregate(a: Aggregate, kind: &'static str, boxes: &Boxes, tier: Tier
     let case_id = format!("agg={} kind={}", name, kind);
     let max_len = tier.pick(3, 4);
     let mut nonnull_here = 0u64;
-    for b in boxes.get(kind, 1) {
+    // the medium box list, plus non-convex element types (value sets and unions of two intervals)
+    // in every tier: a mean / variance lies in the hull of the type, not in the type
+    let mut element_boxes: Vec<Boxed> = boxes.get(kind, 1).clone();
+    match kind {
+        "int" => element_boxes.extend(int_boxes(&[-3, 0, 2, 5], 2, 4).into_iter().filter(|b| b.desc.matches("], [").count() >= 1).take(12)),
+        "float" => element_boxes.extend(float_boxes(&[-2.5, 0.0, 1.0, 5.0], 2, 4).into_iter().filter(|b| b.desc.matches("], [").count() >= 1).take(12)),
+        _ => {}
+    }
+    for b in &element_boxes {
         // at most 4 points of the box
         let mut pts = b.points.clone();
         if pts.len() > 4 {
